@@ -43,6 +43,18 @@ var c12Table = map[string]string{
 	"MR3": "{a: \"${aa:K}\", b: \"${aa:N}\", c: \"${aa:B}\"}", "LR4": "[\"${aa:K}\", \"${aa:N}\", \"${aa:K}\", \"${aa:B}\"]",
 }
 
+// long reference chains: H0 -> H1 -> ... -> H<c12ChainLen> = "end" (whole-value references), G<i> = "<${aa:G<i+1>}>" (embedded)
+const c12ChainLen = 520
+
+func init() {
+	for i := 0; i < c12ChainLen; i++ {
+		c12Table[fmt.Sprintf("H%d", i)] = fmt.Sprintf("${aa:H%d}", i+1)
+		c12Table[fmt.Sprintf("G%d", i)] = fmt.Sprintf("<${aa:G%d}>", i+1)
+	}
+	c12Table[fmt.Sprintf("H%d", c12ChainLen)] = "end"
+	c12Table[fmt.Sprintf("G%d", c12ChainLen)] = "end"
+}
+
 // what the typed value of each key must be when the reference is the whole value
 var c12Typed = map[string]any{
 	"K": "v", "N": 42, "B": true, "F": 1.5, "R": "v", "E": "a$b", "P": "K", "D": "$",
@@ -857,6 +869,15 @@ func TestVerif(t *testing.T) {
 				return
 			}
 			do(c12Case{Kind: "expand", S: s, Def: def}, strings.Contains(s, "${") || strings.Contains(s, "$$"))
+		}
+	}
+	// 1a. LONG finite inputs: chains of whole-value and of embedded references 99..500 deep and strings with 99..500 embedded
+	// references - nothing cyclic, so every reference is replaced (only cycles are errors)
+	for _, def := range []bool{false, true} {
+		for _, k := range []int{99, 100, 101, 150, 500} {
+			do(c12Case{Kind: "expand", S: fmt.Sprintf("${aa:H%d}", c12ChainLen-k), Def: def}, true)
+			do(c12Case{Kind: "expand", S: fmt.Sprintf("x${aa:G%d}", c12ChainLen-k), Def: def}, true)
+			do(c12Case{Kind: "expand", S: strings.Repeat("${aa:K}-", k), Def: def}, true)
 		}
 	}
 	// 1b. the same strings inside lists / maps in lists (all strings of up to 2 tokens)
